@@ -12,6 +12,7 @@ Helper lemmas and the inductive invariant are in Proofs/CoMutex*.lean.
 -/
 import YaclibModel.Proofs.CoMutexProgress
 import YaclibModel.Proofs.CoMutexExecInst
+import YaclibModel.Proofs.CoMutexExecInst2
 import YaclibModel.Extracted.Kernels
 import YaclibModel.Model.Skeletons
 
@@ -361,6 +362,13 @@ theorem over_pool {n : Nat} (hn : 0 < n) (stop : Option Yaclib.Pool.StopKind) (s
     (hnd : NeverDrops (Yaclib.Pool.poolExec n stop spur)) {x : XState (Yaclib.Pool.poolExec n stop spur)}
     (h : XReach cfg _ x) (hq : ∀ x', ¬ XStep _ x x') : QuiescentDone cfg x := comutex_over_pool hn stop spur hnd h hq
 
+/-- the FairThreadPool that nobody stops (`Pool.poolExecAlive`: the open pool model without a stopper; same reachable
+    states and steps as `Pool.poolExec n none spur`, see Props/C08 `unstopped_pool_alive`): no hypothesis left.
+    (`NeverDrops (Pool.poolExec n none spur)` itself is false, because `NeverDrops` also speaks about unreachable states:
+    `pool_none_neverDrops_false`.) -/
+theorem over_pool_unstopped {n : Nat} (hn : 0 < n) (spur : Bool) {x : XState (Yaclib.Pool.poolExecAlive n spur)}
+    (h : XReach cfg _ x) (hq : ∀ x', ¬ XStep _ x x') : QuiescentDone cfg x := comutex_over_pool_unstopped hn spur h hq
+
 theorem over_strand_tower {base : Exec} (hb : ExecContract base) (k : Nat) (hnd : NeverDrops (Yaclib.Strand.tower base k))
     {x : XState (Yaclib.Strand.tower base k)} (h : XReach cfg _ x) (hq : ∀ x', ¬ XStep _ x x') : QuiescentDone cfg x :=
   comutex_over_strand_tower hb k hnd h hq
@@ -462,3 +470,14 @@ theorem tie_coro_transfer_macros :
     Extracted.Kernels.CoMutexSrc_coro_transfer_macros = Skeletons.CoMutexSrc_coro_transfer_macros := rfl
 
 end Yaclib.Props.C14.Tie
+
+/-! over towers of Strands "never Drops" is discharged from the base (Proofs/StrandTowerNoDrop.lean, CoMutexExecInst2.lean) -/
+namespace Yaclib.Props.C14
+open Yaclib.CoMutex
+
+theorem over_strand_tower_inline {cfg : Cfg} (k : Nat) {x : XState (Yaclib.Strand.tower (Yaclib.Strand.inlineExec true) k)}
+    (h : XReach cfg _ x) (hq : ∀ x', ¬ XStep _ x x') : QuiescentDone cfg x := comutex_over_strand_tower_inline k h hq
+theorem over_strand_tower_manual {cfg : Cfg} (k : Nat) {x : XState (Yaclib.Strand.tower (Yaclib.Strand.manualExec false) k)}
+    (h : XReach cfg _ x) (hq : ∀ x', ¬ XStep _ x x') : QuiescentDone cfg x := comutex_over_strand_tower_manual k h hq
+
+end Yaclib.Props.C14
